@@ -550,8 +550,10 @@ KIND_KEYS = {
     "pobj": ["x", "protoA", "zz"],
     "nobj": ["x", "zz"],
     "frozen": ["x", "g", "zz"],
-    "arr": ["i0", "i1", "i5", "length", "x", "zz"],
-    "sparse": ["i0", "i1", "i2", "length", "x", "zz"],
+    "arr": ["i0", "i1", "i3", "i5", "length", "x", "zz"],        # i3 = exactly `length`
+    "pidx": ["i0", "i1", "i2", "ro", "x", "zz"],
+    "parr": ["i0", "i1", "i2", "i3", "length", "zz"],
+    "sparse": ["i0", "i1", "i2", "i3", "length", "x", "zz"],
     "fn": ["x", "name", "length", "prototype", "zz"],
     "args": ["i0", "i1", "i2", "length", "zz"],
     "margs": ["i0", "i1", "i2", "length", "zz"],
@@ -633,7 +635,7 @@ def gen_op(rng, kind):
             op = "%s/%s" % (rng.choice(KEY_OPS), k)
         elif r < 0.52:
             vals = SEQ_VALS
-            if k == "length" and kind in ("arr", "sparse") and "arrlen" in ACTIVE:
+            if k == "length" and kind in ("arr", "sparse", "parr") and "arrlen" in ACTIVE:
                 # an invalid array length on a non-writable `length` throws RangeError instead of failing with false/TypeError
                 # (array.go validates the value before looking at writability) -- not proxy.go's business
                 vals = ["i0", "i1", "i2", "i7"]
@@ -813,7 +815,7 @@ def seq_signature(line, out):
 
 def lockstep(ctx, harness, model):
     run_probes(ctx, harness)
-    lines = [l for l in corpus_lines() if l.split()[1] != "keylie"] + gen_seqs(ctx)
+    lines = [l for l in corpus_lines() if l.split()[1] not in ("keylie", "fnkind")] + gen_seqs(ctx)
     for kind in KIND_KEYS:
         for hk in "JG":
             if kind not in ("margs",):
@@ -1032,11 +1034,76 @@ def keylie(ctx, harness):
         ctx.violation(sig, "%s -> %s; ECMA-262 §10.5.11 requires %s" % (l, o[:200], exp),
                       {"kind": "input", "ops": [l], "observed": o, "expected": exp})
 
+
+# ------------------------------------------------------------------------------------------------
+# correspondence A'': callable / constructor proxies (typeof, [[Call]], IsConstructor, [[Construct]], instanceof)
+# ------------------------------------------------------------------------------------------------
+
+FN_KINDS = ["fn", "arrow", "method", "cls", "dcls", "bound", "async", "gen", "bfn", "bctor", "obj", "arr", "pfn"]
+SIG_HASINSTANCE = "C11/instanceof: a callable proxy as right operand of instanceof (OrdinaryHasInstance on the proxy) throws TypeError"
+
+def fnkinds(ctx, harness):
+    lines = ["Q fnkind %s %d %s %s" % (k, n, hk, tr) for k in FN_KINDS for n in (1, 2, 3) for hk in "JG" for tr in "01"]
+    out, err = run_sharded(ctx, harness, lines, shards=2)
+    if out is None:
+        ctx.obligation("corr:callable-proxies.harness-run", "correspondence", False, err)
+        return
+    bad, known = [], []
+    facts = {}
+    for l, o in zip(lines, out):
+        f = l.split()
+        ctx.count(1)
+        if o.startswith("OK "):
+            fa, log = o[3:].split("#")
+            fd = dict(x.split("=", 1) for x in fa.split(";"))
+            facts[f[2]] = "typeof=%s isCtor=%s" % (fd["typeof"], fd["isCtor"])
+            n = int(f[3])
+            exp = []
+            if f[5] == "1":
+                if fd["typeof"] == "function":
+                    exp += ["%d:apply" % i for i in range(n, 0, -1)]
+                if fd["isCtor"] == "1":
+                    exp += ["%d:construct" % i for i in range(n, 0, -1)]
+            if log != ",".join(exp):
+                bad.append((l, o, "trap calls " + ",".join(exp)))
+            else:
+                ctx.nontriv(l)
+            continue
+        if o.startswith("MISMATCH direct=") and " proxy=" in o:
+            d, pr = o[len("MISMATCH direct="):].split(" proxy=")
+            dd = dict(x.split("=", 1) for x in d.split(";")); pd = dict(x.split("=", 1) for x in pr.split(";"))
+            diff = [k for k in dd if dd[k] != pd.get(k)]
+            if diff == ["inst"] and dd["inst"] == "true" and pd["inst"] == "TypeError":
+                if f[2] == "bound":
+                    # spec-mandated: OrdinaryHasInstance(proxy, O) has no [[BoundTargetFunction]] to follow, Get(proxy,
+                    # "prototype") is undefined for a bound function -> TypeError (§7.3.21 steps 2, 4, 5)
+                    ctx.nontriv(l)
+                    continue
+                known.append((l, o))
+                continue
+        bad.append((l, o, "identical typeof / call / IsConstructor / construct / instanceof"))
+    ctx.stats["callable_proxy_cases"] = len(lines)
+    ctx.stats["callable_kinds"] = facts
+    unknown_known = known if not ctx.known_signature(SIG_HASINSTANCE) else []
+    ctx.obligation("corr:callable-proxies.proxy==target", "correspondence", not bad and not unknown_known,
+                   "; ".join("%s -> %s (expected %s)" % (l, o[:200], e) for l, o, e in bad[:4]) +
+                   ("; ".join("%s -> %s" % (l, o[:200]) for l, o in unknown_known[:2])))
+    if known:
+        l, o = sorted(known, key=lambda x: len(x[0]))[0]
+        ctx.violation(SIG_HASINSTANCE, "%s -> %s (%d cases)" % (l, o[:260], len(known)),
+                      {"kind": "history", "ops": [l], "observed": o, "expected": "OK (instanceof through the proxy = instanceof the target)"})
+    seen = set()
+    for l, o, e in bad[:6]:
+        sig = "C11/callable proxy: " + l + " -> " + o.split(" proxy=")[0][:60]
+        if sig not in seen:
+            seen.add(sig)
+            ctx.violation(sig, "%s -> %s; expected %s" % (l, o[:300], e), {"kind": "history", "ops": [l], "observed": o, "expected": e})
+
 # ------------------------------------------------------------------------------------------------
 # main
 # ------------------------------------------------------------------------------------------------
 
-THEOREMS_MIN = 60
+THEOREMS_MIN = 80
 
 def build(ctx):
     regen_ok = ctx.regen()
@@ -1072,6 +1139,7 @@ def main(ctx):
         return ctx.finish(level="proof", rule="harness did not build")
     lattice(ctx, harness, model)
     keylie(ctx, harness)
+    fnkinds(ctx, harness)
     lockstep(ctx, harness, model)
     return ctx.finish(level="proof",
                       rule="lattice: exhaustive product of the abstract domain (descriptor fields x target property shape x extensibility x trap result) for the white-box calls, "
@@ -1080,6 +1148,8 @@ def main(ctx):
 def history_problems(line, out):
     """problems of one lock-step history given the harness answer (no Lean needed)"""
     f = line.split()
+    if f[1] == "fnkind":
+        return [] if out.startswith("OK ") else [out]
     if f[1] == "keylie":
         if out == "NA":
             return []
